@@ -5,6 +5,7 @@ mod c05;
 mod c06;
 mod poly;
 mod c06sig;
+mod c06call;
 mod c07;
 mod schema;
 mod uni;
@@ -121,6 +122,11 @@ fn real_main() {
             if s.verdict().accepted() {
                 let r = s.run(b"", &[], 100000);
                 println!("run: {:?}", r);
+            }
+        }
+        | Some("roles") => {
+            for r in zydeco_syntax::BuiltinValueRole::all() {
+                println!("{} : {}", r.source_name(), zydeco_statics::BuiltinOperationAbi::for_role(r).into_classifier());
             }
         }
         | Some("fmtcount") => {
